@@ -213,6 +213,43 @@ def sign_arms(chk, F, ty, body, key, rule, base_of_sign, zero_ok=None):
             chk.ob(k2, ok, rule + " (either arm at zero)", body_loc(F, body), found=repr(unref(val))[:200], nontrivial=False)
         else:
             compare_parts(chk, k2, rule, body_loc(F, body), sp, val, sp.spec_of_real(base_of_sign(sign)))
+    if zero_ok:
+        # signed zeros: |+0.0| = +0.0 is the operand itself, |-0.0| = +0.0 is its negation (f64::abs clears the sign bit)
+        for tag, negative, want in (("+0.0", False, base_of_sign(1)), ("-0.0", True, base_of_sign(-1))):
+            k2 = "%s|sign=%s" % (key, tag)
+            try:
+                paths = run_paths(F, body, lambda: [sp.operand("a")], oracle=signed_zero_oracle(sign_env(0), negative))
+            except Unsupported as ex:
+                chk.undecide(k2, "unsupported: %s" % ex, body_loc(F, body))
+                continue
+            if len(paths) != 1:
+                chk.ob(k2, False, "branches are decided by the sign of the real part", body_loc(F, body),
+                       found=[path_descr(c) for c, _, _, _ in paths])
+                continue
+            compare_parts(chk, k2, rule + " — at a zero real part the sign BIT decides (reference: f64::abs)", body_loc(F, body), sp,
+                          paths[0][1], sp.spec_of_real(want))
+
+
+def signed_zero_oracle(env, negative):
+    """sign predicates and comparisons for a real part that is +0.0 / -0.0 (IEEE): ordering comparisons see no difference, the
+    sign predicates of num_traits / std do (is_positive(+0.0), is_negative(-0.0), is_sign_negative(-0.0))"""
+    base = sample_oracle(env)
+
+    def oracle(key, descr, ctx):
+        if key[0] == "pred":
+            from .common import _poly_from_key_cache as cache
+            p = cache.get(key[2])
+            v = eval_poly(p, env) if p is not None else None
+            if v == 0 and p is not None and any(a[0] == "v" for a in p.atoms_deep()):
+                # the value is the signed zero itself or its negation: the sign follows the operand's sign through negation
+                neg = negative
+                lead = sorted(p.t.items(), key=lambda kv: repr(kv[0]))[0][1] if p.t else 1
+                if lead < 0:
+                    neg = not neg
+                return {"is_zero": True, "is_one": False, "is_positive": not neg, "is_negative": neg,
+                        "is_sign_positive": not neg, "is_sign_negative": neg}.get(key[1])
+        return base(key, descr, ctx)
+    return oracle
 
 
 def sign_oracle(env):
